@@ -28,7 +28,6 @@ def InRange (d : List Int) (p : Pos) : Prop := InBox (zeros d) d p
 
 /-- row-major linear index in Horner form -/
 def lin : Pos → List Int → Int
-  | [x], _ => x
   | x :: xs, d :: ds => x + d * lin xs ds
   | _, _ => 0
 
@@ -54,5 +53,7 @@ instance : (mn sp p : Pos) → Decidable (InBox mn sp p)
   | [], _ :: _, _ => isFalse (by simp [InBox])
   | _ :: _, [], _ => isFalse (by simp [InBox])
   | _ :: _, _ :: _, [] => isFalse (by simp [InBox])
+
+instance (d p : Pos) : Decidable (InRange d p) := inferInstanceAs (Decidable (InBox (zeros d) d p))
 
 end Fcppt.C08
